@@ -44,8 +44,14 @@ pub enum CKind {
     Pair(u64),
     SingleRatio,
     PlrLf,
-    /// owner / fee pool / insurance fund re-wiring (0 owner, 1 fee pool, 2 insurance fund)
+    /// owner / fee pool / insurance fund re-wiring (0 owner, 1 fee pool, 2 insurance fund,
+    /// 3 the vAMM's own insurance-fund address, 4 fee pool to the stranger)
     Rewire(u64),
+    /// small non-zero toll and spread on the vAMM
+    VFees,
+    /// engine partial-liquidation ratio = 1 and a tight fluctuation limit on the vAMM
+    PlrOne,
+    VFluctTight,
     /// undo of a re-wiring
     Unwire(u64),
     VRatios,
@@ -81,6 +87,8 @@ pub enum TOp {
     Deposit,
     Withdraw,
     Close,
+    /// whole close with the limit at the quoted amount (0), one above (1), one below (2)
+    CloseLim(u64),
 }
 #[derive(Clone, Copy, Debug, PartialEq)]
 pub enum Who {
@@ -132,7 +140,7 @@ impl GenCtx {
             _ => None,
         };
         let postliq_left = if r.chance(40, 100) { 1 } else { 0 };
-        let config_at = if r.chance(12, 100) { Some(ntx / 2) } else { None };
+        let config_at = if r.chance(16, 100) { Some(ntx / 2) } else { None };
         let alias_from = if r.chance(10, 100) { Some(ntx / 3) } else { None };
         GenCtx {
             plan: VecDeque::new(),
@@ -313,7 +321,7 @@ fn vary_funds(r: &mut Rng, exact: u128, dr: &mut Draft) {
         78..=82 => dr.funds = 0,
         83..=87 => dr.funds = exact + 1,
         88..=92 => dr.funds = exact.saturating_sub(1),
-        93..=96 => dr.funds = r.below128(exact.saturating_mul(2) + 2),
+        93..=96 => dr.funds = r.below128(exact.saturating_mul(2).saturating_add(2)),
         _ => {
             dr.funds = exact;
             dr.extra = true;
@@ -770,6 +778,15 @@ fn realize(w: &World, r: &mut Rng, g: &mut GenCtx, plan: &Plan, vis: &[VInfo], p
                     draft(trader, Msg::Withdraw { v: v.id, amt: (fc / 2).max(1) })
                 }
                 (TOp::Close, _) => draft(trader, Msg::Close { v: v.id, lim: 0 }),
+                (TOp::CloseLim(k), Some(p)) => {
+                    let q = value(p);
+                    let lim = match k {
+                        0 => q,
+                        1 => q.saturating_add(1),
+                        _ => q.saturating_sub(1).max(1),
+                    };
+                    draft(trader, Msg::Close { v: v.id, lim })
+                }
                 _ => return None,
             };
             dr.block = *block;
@@ -926,19 +943,56 @@ fn config_msg(w: &World, r: &mut Rng, v: &VInfo, kind: CKind, legit: bool, trade
                 match what {
                     0 => *uowner = Some(NEWOWNER),
                     1 => *ufp = Some(NEWOWNER),
+                    4 => *ufp = Some(STRANGER),
+                    3 => {}
                     _ => *uifd = Some(STRANGER),
                 }
             }
+            if what == 3 {
+                let own = w.vamm_owner(&v.addr);
+                let mut m = vcfg0(v.id);
+                if let Msg::VCfg { uifd, .. } = &mut m {
+                    *uifd = Some(STRANGER);
+                }
+                return draft(who(r, own), m);
+            }
             draft(who(r, eowner), m)
+        }
+        CKind::VFees => {
+            let own = w.vamm_owner(&v.addr);
+            let mut m = vcfg0(v.id);
+            if let Msg::VCfg { utoll, uspread, .. } = &mut m {
+                *utoll = Some(*r.pick(&[d / 100, d / 200, d / 1000]));
+                *uspread = Some(*r.pick(&[d / 100, d / 200, d / 1000]));
+            }
+            draft(own, m)
+        }
+        CKind::PlrOne => draft(eowner, ecfg(None, None, Some(d), None)),
+        CKind::VFluctTight => {
+            let own = w.vamm_owner(&v.addr);
+            let mut m = vcfg0(v.id);
+            if let Msg::VCfg { ufluct, .. } = &mut m {
+                *ufluct = Some(*r.pick(&[d / 1000, d / 200, d / 50]));
+            }
+            draft(own, m)
         }
         CKind::Unwire(what) => {
             let mut m = Msg::ECfg { uowner: None, uifd: None, ufp: None, uimr: None, ummr: None, uplr: None, ulf: None };
             if let Msg::ECfg { uowner, uifd, ufp, .. } = &mut m {
                 match what {
                     0 => *uowner = Some(OWNER),
-                    1 => *ufp = Some(FEEPOOL),
+                    1 | 4 => *ufp = Some(FEEPOOL),
+                    3 => {}
                     _ => *uifd = Some(IFUND),
                 }
+            }
+            if what == 3 {
+                let own = w.vamm_owner(&v.addr);
+                let mut m = vcfg0(v.id);
+                if let Msg::VCfg { uifd, .. } = &mut m {
+                    *uifd = Some(IFUND);
+                }
+                return draft(own, m);
             }
             draft(eowner, m)
         }
@@ -1041,6 +1095,15 @@ fn start_config(w: &World, r: &mut Rng, g: &mut GenCtx, vis: &[VInfo], ps: &[Pos
     let holders: Vec<u64> = ps.iter().filter(|p| p.v == v.id && TRADERS.contains(&p.t)).map(|p| p.t).collect();
     let trader = if holders.is_empty() { *r.pick(&TRADERS) } else { holders[r.below(holders.len() as u64) as usize] };
     let n = r.range(8, 15);
+    if !holders.is_empty() && r.chance(2, 5) {
+        // whole close against a caller limit while the close breaches the fluctuation limit and the
+        // engine's partial ratio is 1 (the whole-close branch must still honour the limit)
+        g.plan.push_back(Plan::Config { vi, kind: CKind::PlrOne, legit: true, trader });
+        g.plan.push_back(Plan::Config { vi, kind: CKind::VFluctTight, legit: true, trader });
+        g.plan.push_back(Plan::TraderOp { vi, who: Who::Id(trader), op: TOp::CloseLim(r.range(1, 2)), block: Blk::Next });
+        g.plan.push_back(Plan::TraderOp { vi, who: Who::Id(trader), op: TOp::CloseLim(0), block: Blk::Free });
+        g.plan.push_back(Plan::TraderOp { vi, who: Who::Id(trader), op: TOp::OpenSame, block: Blk::Free });
+    }
     let mut unwire: Vec<(u64, CKind)> = vec![]; // (due after this many further updates, kind)
     let _ = w;
     for _ in 0..n {
@@ -1049,13 +1112,21 @@ fn start_config(w: &World, r: &mut Rng, g: &mut GenCtx, vis: &[VInfo], ps: &[Pos
             0..=29 => CKind::Pair(r.below(6)),
             30..=41 => CKind::SingleRatio,
             42..=51 => CKind::PlrLf,
-            52..=56 => CKind::Rewire(r.below(3)),
-            57..=68 => CKind::VRatios,
+            52..=59 => CKind::Rewire(r.below(5)),
+            60..=68 => CKind::VRatios,
             69..=76 => CKind::VTwi,
             77..=89 => CKind::VCaps,
             _ => CKind::WlToggle,
         };
+        if matches!(kind, CKind::Rewire(_)) {
+            g.plan.push_back(Plan::Config { vi, kind: CKind::VFees, legit: true, trader });
+        }
         g.plan.push_back(Plan::Config { vi, kind, legit, trader });
+        if matches!(kind, CKind::Rewire(_)) {
+            // fee-paying trades while the addresses are re-wired
+            g.plan.push_back(Plan::TraderOp { vi, who: Who::Id(trader), op: TOp::OpenSame, block: Blk::Free });
+            g.plan.push_back(Plan::TraderOp { vi, who: Who::Id(trader), op: TOp::Reduce, block: Blk::Free });
+        }
         if matches!(kind, CKind::VCaps | CKind::WlToggle) || r.chance(1, 5) {
             g.plan.push_back(Plan::TraderOp { vi, who: Who::Id(trader), op: TOp::OpenSame, block: Blk::Free });
         }
